@@ -14,7 +14,8 @@ What is read (ast only, nothing is imported or executed):
   * AxolotlBaseLayer.getKeysFor, AxolotlControlLayer.flush_keys, AxolotlSendLayer.sendToGroup:
     the single `self._sendIq(...)` call and which callbacks it passes.
   * YowProtocolLayer.processIqRegistry / YowInterfaceLayer.processIqRegistry: whether the
-    registry test also requires type in (result, error).
+    registry test also requires type in (result, error), and whether the entry is removed
+    before or after the first callback call (statement order, try/finally flattened).
 Unrecognised source raises TranslateError; regenerate() then writes a stub table (nothing is
 routed) so that the model still builds, every theorem about the table fails and the
 correspondence disagrees -- tie broken.
@@ -277,7 +278,53 @@ def _strict(repo, rel, clsname):
                 raise TranslateError("%s: unrecognised registry test %s" % (rel, ast.unparse(t)))
     if len(found) != 1:
         raise TranslateError("%s: %d registry tests in processIqRegistry" % (rel, len(found)))
-    return found[0]
+    return found[0], _late_delete(m, rel)
+
+
+def _leaves(stmts):
+    """simple statements in execution order (if/try/with bodies flattened; finally last)"""
+    for st in stmts:
+        if isinstance(st, ast.If):
+            for x in _leaves(st.body): yield x
+            for x in _leaves(st.orelse): yield x
+        elif isinstance(st, ast.Try):
+            for x in _leaves(st.body): yield x
+            for h in st.handlers:
+                for x in _leaves(h.body): yield x
+            for x in _leaves(st.orelse): yield x
+            for x in _leaves(st.finalbody): yield x
+        elif isinstance(st, ast.With):
+            for x in _leaves(st.body): yield x
+        else:
+            yield st
+
+
+def _late_delete(m, rel):
+    """is the registry entry removed AFTER the first callback call?  (del self.iqRegistry[..] or
+    self.iqRegistry.pop(..) vs. the first call of a plain name -- the unpacked callbacks)"""
+    def removes(st):
+        for n in ast.walk(st):
+            if isinstance(n, ast.Delete) and any(isinstance(t, ast.Subscript) and _is_self_attr(t.value, "iqRegistry")
+                                                 for t in n.targets):
+                return True
+            if isinstance(n, ast.Call) and isinstance(n.func, ast.Attribute) and n.func.attr in ("pop", "popitem") \
+                    and _is_self_attr(n.func.value, "iqRegistry"):
+                return True
+        return False
+
+    def calls_back(st):
+        return any(isinstance(n, ast.Call) and isinstance(n.func, ast.Name) for n in ast.walk(st))
+    rm = cb = None
+    for idx, st in enumerate(_leaves(m.body)):
+        if rm is None and removes(st):
+            rm = idx
+        if cb is None and calls_back(st):
+            cb = idx
+    if rm is None:
+        raise TranslateError("%s: processIqRegistry never removes the entry" % rel)
+    if cb is None:
+        raise TranslateError("%s: processIqRegistry calls no callback" % rel)
+    return rm > cb
 
 
 def translate(repo=None):
@@ -337,19 +384,19 @@ def translate(repo=None):
     if ping_leaf is None or ping_leaf[1][0] != "reg":
         raise TranslateError("the keep-alive ping is not registered by the iq layer")
     lib["LKPing"] = (ping_leaf[0], True, ping_leaf[1][2] is not None)
-    strict = _strict(repo, "yowsup/layers/__init__.py", "YowProtocolLayer")
-    strict_i = _strict(repo, "yowsup/layers/interface/interface.py", "YowInterfaceLayer")
+    strict, late = _strict(repo, "yowsup/layers/__init__.py", "YowProtocolLayer")
+    strict_i, late_i = _strict(repo, "yowsup/layers/interface/interface.py", "YowInterfaceLayer")
     info.update({"routes": {k: routes.get(k, "RNone") for k in AKINDS},
                  "lib": {k: list(v) for k, v in lib.items()}, "strict_reply": strict,
-                 "strict_iface": strict_i})
-    return routes, lib, strict, strict_i, info
+                 "strict_iface": strict_i, "late_delete": late, "late_delete_iface": late_i})
+    return routes, lib, (strict, strict_i, late, late_i), info
 
 
 def _b(x):
     return "true" if x else "false"
 
 
-def render(routes, lib, strict, strict_i, note):
+def render(routes, lib, flags, note):
     o = ["(* GENERATED by harness/translators/c08_table.py from the layers' source -- do not edit.",
          "   %s *)" % note,
          "From YV Require Import Common.Tac C08.C08Model.", "",
@@ -361,7 +408,8 @@ def render(routes, lib, strict, strict_i, note):
         lay, hs, he = lib[lk]
         o.append("  | %s => (%s, (%s, %s))" % (lk, lay, _b(hs), _b(he)))
     o += ["  end.", "",
-          "Definition gen_cfg : cfg := mkcfg gen_route gen_lib_route %s %s." % (_b(strict), _b(strict_i)), ""]
+          "(* strict_reply strict_iface late_delete late_delete_iface *)",
+          "Definition gen_cfg : cfg := mkcfg gen_route gen_lib_route %s." % " ".join(_b(f) for f in flags), ""]
     return "\n".join(o)
 
 
@@ -376,11 +424,11 @@ def _write(text):
 def regenerate(repo=None):
     """writes coq/Gen/C08Table.v; returns the info dict; raises TranslateError after writing a stub"""
     try:
-        routes, lib, strict, strict_i, info = translate(repo)
+        routes, lib, flags, info = translate(repo)
     except TranslateError as e:
         stub_lib = {lk: ("LCtl", False, False) for lk in
                     ["LKFetchCtl", "LKFetchSend", "LKFetchRecv", "LKUpload", "LKGroupInfo", "LKPing"]}
-        _write(render({}, stub_lib, False, False, "STUB: source not recognised: %s" % str(e).replace("*)", "* )")))
+        _write(render({}, stub_lib, (False, False, False, False), "STUB: source not recognised: %s" % str(e).replace("*)", "* )")))
         raise
-    _write(render(routes, lib, strict, strict_i, "repo: %s" % (repo or REPO)))
+    _write(render(routes, lib, flags, "repo: %s" % (repo or REPO)))
     return info
